@@ -144,8 +144,8 @@ def generate(rng, tier):
         plan += [dict(n=30, min_tasks=2, max_tasks=5, p_exn=0.0), dict(n=18, min_tasks=2, max_tasks=5, p_exn=0.12),
                  dict(n=6, min_tasks=4, max_tasks=6, p_exn=0.05), dict(n=6, min_tasks=1, max_tasks=1, p_exn=0.1)]
     else:
-        plan += [dict(n=220, min_tasks=2, max_tasks=5, p_exn=0.0), dict(n=120, min_tasks=2, max_tasks=5, p_exn=0.12),
-                 dict(n=60, min_tasks=4, max_tasks=6, p_exn=0.05), dict(n=12, min_tasks=6, max_tasks=7, p_exn=0.03),
+        plan += [dict(n=260, min_tasks=2, max_tasks=5, p_exn=0.0), dict(n=150, min_tasks=2, max_tasks=5, p_exn=0.12),
+                 dict(n=120, min_tasks=4, max_tasks=6, p_exn=0.05), dict(n=30, min_tasks=6, max_tasks=7, p_exn=0.03),
                  dict(n=20, min_tasks=1, max_tasks=1, p_exn=0.1)]
     for spec in plan:
         for _ in range(spec["n"]):
